@@ -6,6 +6,7 @@ Envelopes are written (E (ticks value shape) ...) for core_events.Envelope and
 import sys
 import os
 import logging
+from fractions import Fraction
 
 sys.path.insert(0, os.path.dirname(os.path.abspath(__file__)))
 import sx  # noqa: E402
@@ -77,7 +78,21 @@ def snap(e):
 
 
 def T(n):
-    return int(n) / TICK
+    """a time argument in one of the kinds of Duration.Type: float (half of the values), Fraction, a ratio string,
+    a RatioDuration or a DirectDuration object - chosen by the value itself, so that a case always replays the same"""
+    n = int(n)
+    k = (abs(n) // 3) % 10
+    if n < 0 or os.environ.get("VERIF_FLOAT_ARGS") == "1" or k < 5:
+        return n / TICK
+    if k == 5:
+        return Fraction(n, TICK)
+    if k == 6:
+        return f"{n}/{TICK}"
+    if k == 7:
+        return cp.RatioDuration(Fraction(n, TICK))
+    if k == 8:
+        return cp.DirectDuration(n / TICK)
+    return Fraction(n, TICK)
 
 
 def err(exc):
@@ -102,7 +117,7 @@ def query(e, q):
         if k == "point_at":
             return ["ok", spoint(e.point_at(T(q[1])))]
         if k == "range":
-            return ["ok", [spoint(p) for p in e.time_range_to_point_tuple(ranges.Range(T(q[1]), T(q[2])))]]
+            return ["ok", [spoint(p) for p in e.time_range_to_point_tuple(ranges.Range(int(q[1]) / TICK, int(q[2]) / TICK))]]
         if k == "integrate":
             return ["ok", sf(e.integrate_interval(T(q[1]), T(q[2])))]
         if k == "average":
@@ -413,6 +428,18 @@ def run(case):
                 e.apply_parameter_on_event(ev, e.value_to_parameter(num(p[1])))
                 e.apply_curve_shape_on_event(ev, num(p[2]))
                 ev.duration = int(p[0]) / TICK
+            case = case[:-1]
+        elif case[-1] and case[-1][0] == "decoy":
+            # operations that must not touch the receiver run first: a copy is edited in place, the envelope is split
+            e = build(case[1])
+            t = int(case[-1][1])
+            try:
+                c = e.copy()
+                c.sample_at(t / TICK)
+                c.duration = c.duration * 2 + 1
+                e.split_at(t / TICK)
+            except Exception:  # noqa: the decoy itself is not under test here
+                pass
             case = case[:-1]
         else:
             e = build(case[1])
